@@ -983,6 +983,11 @@ def _k3_discharge(ctx, f, s, base, idx, atoms, av):
     # modulo-len index into the same sequence
     if idx[0] == "binop" and idx[1] == "%" and M.builtin_call(idx[3], "len", 1) and strip_mut(idx[3][2][0]) == base:
         return True, "index reduced modulo len of the same sequence"
+    if idx[0] == "binop" and idx[1] == "%" and idx[3][0] == "const" and isinstance(idx[3][1], int) and idx[3][1] > 0:
+        from .flow import const_len
+        n_ = const_len(ctx.p, base)
+        if n_ is not None and idx[3][1] <= n_:
+            return True, "index reduced modulo %d, the (constant) length of the table is %d" % (idx[3][1], n_)
     # dict read dominated by a membership test
     for t, pol in atoms:
         if t[0] == "compare" and t[1] == ("in",) and t[2][0] == idx and strip_mut(t[2][1]) == base and pol:
@@ -998,6 +1003,10 @@ def _k3_discharge(ctx, f, s, base, idx, atoms, av):
     # loop index from enumerate over the same sequence
     if idx[0] == "loopvar" and M.is_call(idx[2]) and idx[2][1] == ("builtin", "enumerate") and strip_mut(idx[2][2][0]) == base:
         return True, "index enumerates the same sequence"
+    if idx[0] == "loopindex":
+        li = ctx.A.paths(f).loops.get(idx[1])
+        if li is not None and li.iter is not None and strip_mut(li.iter) == base and not getattr(li, "enum_start", None):
+            return True, "index enumerates the same sequence"
     # juniper tables
     if f.module.name == JS and base[0] == "global" and base[2] in ("ALPHA_NUM", "EXTRA", "NUM_ALPHA", "ENCODING"):
         return _k3_juniper(ctx, f, base, idx, atoms)
@@ -1222,7 +1231,11 @@ def _codec_structure(ctx, rep, NUM_ALPHA, EXTRA, ENCODING, fixedc):
             pass
         return ("global", JS, n)
 
-    ln = lambda t: ("call", ("builtin", "len"), (t,), ())
+    from .flow import const_len
+
+    def ln(t):
+        n_ = const_len(p, t)
+        return ("const", n_) if n_ is not None else ("call", ("builtin", "len"), (t,), ())
     f_dec = p.find_function("juniper_decrypt")
     f_enc = p.find_function("juniper_nonrandom_encrypt")
     f_gap = p.find_function("_gap")
@@ -1413,11 +1426,14 @@ def _codec_structure(ctx, rep, NUM_ALPHA, EXTRA, ENCODING, fixedc):
             rep.fail("C18.encode-shape", f_enc.name, "expected one loop over the plaintext", W(f_enc))
             continue
         el = loops[0]
-        enum_form = el.iter == ("call", ("builtin", "enumerate"), (plain,), ())
+        enum_form = False  # `for pos, p in enumerate(plain)` is normalised by the term builder: the loop is over plain, pos is ("loopindex", uid)
         rep.ob("C18.encode-all-chars", f_enc.name, el.iter == plain or enum_form, "loop iterates %s; expected every character of the plaintext (code points, not UTF-8 bytes)" % show(el.iter), W(f_enc, el.node), key="C18.encode-all-chars|juniper_nonrandom_encrypt")
         pv = ("loopvar", el.uid, el.iter, (1,)) if enum_form else ("loopvar", el.uid, el.iter, ())
         posn = [n for n, (pre, posts) in el.carried.items() if pre == ("const", 0) and posts and all(x == ("binop", "+", ("carried", n, el.uid), ("const", 1)) for x in posts)]
-        pos_term = ("loopvar", el.uid, el.iter, (0,)) if enum_form else (("carried", posn[0], el.uid) if posn else None)
+        pos_term = ("carried", posn[0], el.uid) if posn else None
+        if pos_term is None and any(x == ("loopindex", el.uid) for bp in el.body_paths for e in bp.effects if e.kind == "call" for x in subterms(e.a)):
+            if getattr(el, "enum_start", None) in (None, ("const", 0)):
+                pos_term = ("loopindex", el.uid)  # enumerate: counts the plaintext characters from 0
         row_ok = prev_ok = False
         for bp in el.body_paths:
             for e in bp.effects:
